@@ -3,7 +3,7 @@
 Both functions are compared, statement by statement, with a skeleton in which every string literal, every literal
 list/tuple of strings and every f-string is a hole (`H`).  The holes are emitted as Coq data (gate-name list of the
 reader's alternation, the BUFF folding, the parity gates and their empty-remainder constants, the DFF blackbox
-definition, instance-name template and pin wiring, the three scan patterns, the characters stripped from operand
+definition, instance-name template and pin wiring, the comment pattern and the scan patterns, the characters stripped from operand
 strings, the writer's gate list and its constant encoding) or, where the model has no parameter for them, compared
 with the expected literal.  Call structure, flags (add_connected_nodes / allow_redefinition), the order of the four
 reader passes and the `.lower()` / `.upper()` calls are part of the skeleton: any change there fails closed.
@@ -17,6 +17,7 @@ READER = '''\
 def bench_to_circuit(netlist, name):
     c = Circuit(name=name)
     dff = BlackBox(H, H, H)
+    netlist = re.sub(H, H, netlist)
     in_regex = H
     for net_str in re.findall(in_regex, netlist, re.DOTALL):
         nets = net_str.replace(H, H).replace(H, H).replace(H, H).split(H)
@@ -173,6 +174,7 @@ def gen_bench(repo):
     it = iter(R)
     nx = lambda: next(it)
     dff_name, dff_in, dff_out = nx(), nx(), nx()
+    pat_comment, comment_repl = nx(), nx()
     in_regex = nx()
     strip_in = _strip3([nx() for _ in range(6)], "input pass"); split_in = nx()
     ty_input = nx()
@@ -192,6 +194,7 @@ def gen_bench(repo):
         raise Shape("bench_to_circuit: unexpected extra literals")
 
     # literals the model has no parameter for: must be the expected ones
+    _expect("comment replacement", comment_repl, "")
     _expect("type of declared inputs", ty_input, "input")
     _expect("type of DFF output nets", ty_qbuf, "buf")
     _expect("alternation separator", alt_sep, "|")
@@ -262,6 +265,7 @@ def gen_bench(repo):
     out += f"Definition rd_strip : list ascii := {_chars(strip_g)}.\n"
     out += f"Definition rd_split : ascii := ascii_of_nat {ord(split_g)}.\n"
     out += "(* scan patterns as handed to re.findall (the gate pattern is prefix ++ alternation ++ suffix) *)\n"
+    out += f"Definition rd_pat_comment : string := {_cs(pat_comment)}.   (* removed from the text before the first scan *)\n"
     out += f"Definition rd_pat_input : string := {_cs(in_regex)}.\n"
     out += f"Definition rd_pat_gate_pre : string := {_cs(g_pre)}.\n"
     out += f"Definition rd_pat_gate_post : string := {_cs(g_post)}.\n"
